@@ -340,18 +340,17 @@ Qed.
 
 (** * The whole span *)
 
-Definition is_end (o : op) : bool := match o with OEnd _ => true | _ => false end.
 Definition no_end (o : op) : Prop := is_end o = false.
 
 Lemma before_end_no_end ops : Forall no_end (before_end ops).
 Proof.
   induction ops as [|o ops IH]; cbn; [constructor|].
-  destruct o; try (constructor; [reflexivity | exact IH]). constructor.
+  destruct o; try (constructor; [reflexivity | exact IH]); repeat constructor.
 Qed.
 
 (** The instant of the first End, if the program ends the span. *)
 Fixpoint first_end (ops : list op) : option N :=
-  match ops with [] => None | OEnd ts :: _ => Some ts | _ :: r => first_end r end.
+  match ops with [] => None | OEnd ts :: _ => Some ts | OEndPanic _ _ _ ts :: _ => Some ts | _ :: r => first_end r end.
 
 Lemma end_time_first_end ops : end_time_of ops = match first_end ops with Some ts => ts | None => 0 end.
 Proof. induction ops as [|o ops IH]; [reflexivity|]. destruct o; cbn; try exact IH; reflexivity. Qed.
@@ -384,7 +383,8 @@ Lemma run_before_end lim ops : forall s, m_ended s = false ->
 Proof.
   induction ops as [|o ops IH]; intros s H; [reflexivity|].
   destruct o; try (cbn [fold_left before_end first_end]; apply IH; apply step_keeps_recording; [exact H | reflexivity]).
-  cbn [fold_left before_end first_end]. unfold step at 2. rewrite H. now apply run_ended.
+  - cbn [fold_left before_end first_end]. unfold step at 2. rewrite H. now apply run_ended.
+  - cbn [fold_left before_end first_end]. unfold step at 2 3. rewrite H. now apply run_ended.
 Qed.
 
 Lemma start_ops_no_end so : Forall no_end (start_ops so).
@@ -395,12 +395,12 @@ Qed.
 
 Lemma before_end_app_no_end l ops : Forall no_end l -> before_end (l ++ ops) = l ++ before_end ops.
 Proof.
-  induction 1 as [|o l Ho _ IH]; [reflexivity|]. cbn [app]. destruct o; cbn [before_end]; try (now rewrite IH). discriminate.
+  induction 1 as [|o l Ho _ IH]; [reflexivity|]. cbn [app]. destruct o; cbn [before_end]; try (now rewrite IH); discriminate.
 Qed.
 
 Lemma first_end_app_no_end l ops : Forall no_end l -> first_end (l ++ ops) = first_end ops.
 Proof.
-  induction 1 as [|o l Ho _ IH]; [reflexivity|]. cbn [app]. destruct o; cbn [first_end]; try exact IH. discriminate.
+  induction 1 as [|o l Ho _ IH]; [reflexivity|]. cbn [app]. destruct o; cbn [first_end]; try exact IH; discriminate.
 Qed.
 
 Lemma validate_kind_eq k : validate_kind k = kind_of k.
@@ -426,11 +426,12 @@ Section Span.
     AInv lim (m_attrs s) (m_dropped s) (offers_of l) /\
     (m_events s, m_evdropped s) = bounded (lim_events lim) (events_of lim l) /\
     (m_links s, m_lkdropped s) = bounded (lim_links lim) (links_of lim l) /\
-    m_meta s = (kind_of (so_kind so), so_start so, 0).
+    m_meta s = (kind_of (so_kind so), so_start so, 0) /\
+    m_exported s = [].
 
   Lemma inv_init : Inv [] (init so name0).
   Proof.
-    unfold Inv, AInv, init. cbn [m_ended m_name m_status m_attrs m_dropped m_events m_evdropped m_links m_lkdropped m_meta].
+    unfold Inv, AInv, init. cbn [m_ended m_name m_status m_attrs m_dropped m_events m_evdropped m_links m_lkdropped m_meta m_exported].
     rewrite validate_kind_eq. repeat split; try reflexivity.
     - intro. cbn. lia.
     - unfold bounded. cbn. destruct (lim_events lim <? 0)%Z; reflexivity.
@@ -466,24 +467,24 @@ Section Span.
     offers_of (l ++ [o]) = offers_of l ++ [] -> links_of lim (l ++ [o]) = links_of lim l ++ [] ->
     Inv l s -> Inv (l ++ [o]) (add_event lim s name ts attrs).
   Proof.
-    intros He Hn Hs Ho Hl (I1 & I2 & I3 & I4 & I5 & I6 & I7). unfold Inv, add_event.
+    intros He Hn Hs Ho Hl (I1 & I2 & I3 & I4 & I5 & I6 & I7 & I8). unfold Inv, add_event.
     rewrite cap_attrs_cap. unfold mk_event in He. destruct (cap (lim_evattrs lim) attrs) as [k dr].
     pose proof (eq_add_bounded (lim_events lim) (events_of lim l)
                   {| e_name := name; e_time := ts; e_attrs := k; e_dropped := dr |}) as B.
     rewrite <- I5 in B. cbn [fst snd] in B. rewrite B. rewrite <- He.
     destruct (bounded (lim_events lim) (events_of lim (l ++ [o]))) as [q d].
-    cbn [m_ended m_name m_status m_attrs m_dropped m_events m_evdropped m_links m_lkdropped m_meta].
+    cbn [m_ended m_name m_status m_attrs m_dropped m_events m_evdropped m_links m_lkdropped m_meta m_exported].
     rewrite Hn, Hs, Ho, Hl, !app_nil_r. finish.
   Qed.
 
   Lemma inv_step l s o : is_end o = false -> Inv l s -> Inv (l ++ [o]) (step lim s o).
   Proof.
-    intros Hne I. pose proof I as (I1 & I2 & I3 & I4 & I5 & I6 & I7). unfold step. rewrite I1.
-    destruct o as [kvs|name ts kvs|typ msg ts kvs stk|ctx hts kvs|code desc|name| |ts]; [| | | | | | |discriminate].
+    intros Hne I. pose proof I as (I1 & I2 & I3 & I4 & I5 & I6 & I7 & I8). unfold step. rewrite I1.
+    destruct o as [kvs|name ts kvs|typ msg ts kvs stk|ctx hts kvs|code desc|name| |ts|typ msg stk ts]; [| | | | | | |discriminate|discriminate].
     - (* SetAttributes *)
       pose proof (set_attributes_sim lim kvs _ _ _ I4) as A.
       destruct (set_attributes lim kvs (m_attrs s) (m_dropped s)) as [l' d']. cbn [fst snd] in A.
-      unfold Inv. cbn [m_ended m_name m_status m_attrs m_dropped m_events m_evdropped m_links m_lkdropped m_meta].
+      unfold Inv. cbn [m_ended m_name m_status m_attrs m_dropped m_events m_evdropped m_links m_lkdropped m_meta m_exported].
       rewrite name_of_snoc, status_of_snoc, offers_of_snoc, events_of_snoc, links_of_snoc, !app_nil_r.
       finish.
     - (* AddEvent *)
@@ -512,7 +513,7 @@ Section Span.
                       {| l_ctx := ctx; l_ts := hts; l_attrs := k; l_dropped := dr |}) as B.
         rewrite <- I6 in B. cbn [fst snd] in B. rewrite B.
         destruct (bounded (lim_links lim) (links_of lim l ++ _)) as [q d].
-        cbn [m_ended m_name m_status m_attrs m_dropped m_events m_evdropped m_links m_lkdropped m_meta].
+        cbn [m_ended m_name m_status m_attrs m_dropped m_events m_evdropped m_links m_lkdropped m_meta m_exported].
         finish.
       + rewrite app_nil_r. finish.
     - (* SetStatus *)
@@ -520,17 +521,17 @@ Section Span.
       rewrite name_of_snoc, status_of_snoc, offers_of_snoc, events_of_snoc, links_of_snoc, !app_nil_r.
       unfold status_step. rewrite <- I3.
       destruct (code <? fst (m_status s));
-        cbn [m_ended m_name m_status m_attrs m_dropped m_events m_evdropped m_links m_lkdropped m_meta];
+        cbn [m_ended m_name m_status m_attrs m_dropped m_events m_evdropped m_links m_lkdropped m_meta m_exported];
         finish.
     - (* SetName *)
       unfold Inv.
       rewrite name_of_snoc, status_of_snoc, offers_of_snoc, events_of_snoc, links_of_snoc, !app_nil_r.
-      cbn [m_ended m_name m_status m_attrs m_dropped m_events m_evdropped m_links m_lkdropped m_meta].
+      cbn [m_ended m_name m_status m_attrs m_dropped m_events m_evdropped m_links m_lkdropped m_meta m_exported].
       finish.
     - (* a read of the live span: the raw slice is de-duplicated in place, nothing observable changes *)
       unfold Inv.
       rewrite name_of_snoc, status_of_snoc, offers_of_snoc, events_of_snoc, links_of_snoc, !app_nil_r.
-      cbn [m_ended m_name m_status m_attrs m_dropped m_events m_evdropped m_links m_lkdropped m_meta].
+      cbn [m_ended m_name m_status m_attrs m_dropped m_events m_evdropped m_links m_lkdropped m_meta m_exported].
       assert (A : AInv lim (dedupe (m_attrs s)) (m_dropped s) (offers_of l)).
       { destruct I4 as [A1 A2]. split.
         - rewrite dedupe_nodup_id by apply dedupe_nodup. exact A1.
@@ -562,7 +563,7 @@ Section Span.
         x_events := fst e; x_evdropped := snd e; x_links := fst k; x_lkdropped := snd k;
         x_kind := kind_of (so_kind so); x_start := so_start so; x_end := 0 |}).
   Proof.
-    intros (I1 & I2 & I3 & [I4 _] & I5 & I6 & I7). unfold live. cbv zeta.
+    intros (I1 & I2 & I3 & [I4 _] & I5 & I6 & I7 & I8). unfold live. cbv zeta.
     rewrite <- I4, <- I5, <- I6, I2, I3, I7. reflexivity.
   Qed.
 
@@ -586,6 +587,24 @@ Section Span.
   (** What the exporter receives is what the specification says, for all limits and start options. *)
   Theorem snapshot_refines ops : snapshot (run_model lim so name0 ops) = run_spec lim so name0 ops.
   Proof. now rewrite snapshot_live, live_refines. Qed.
+
+  (** Delivery: the span processors receive the span exactly once, at the first
+      End (plain or while panicking), and receive exactly the specification's view. *)
+  Lemma ends_first_end ops : ends ops = match first_end ops with Some _ => true | None => false end.
+  Proof. unfold ends. induction ops as [|o ops IH]; [reflexivity|]. destruct o; cbn; try exact IH; reflexivity. Qed.
+
+  Theorem exports_refine ops : m_exported (run_model lim so name0 ops) = exports_spec lim so name0 ops.
+  Proof.
+    unfold exports_spec. rewrite ends_first_end. rewrite <- snapshot_refines. unfold run_model.
+    rewrite run_before_end by reflexivity.
+    rewrite (first_end_app_no_end _ _ (start_ops_no_end so)), (before_end_app_no_end _ _ (start_ops_no_end so)).
+    assert (I : Inv (start_ops so ++ before_end ops)
+                    (fold_left (step lim) (start_ops so ++ before_end ops) (init so name0))).
+    { apply inv_run. apply Forall_app. split; [apply start_ops_no_end | apply before_end_no_end]. }
+    destruct I as (_ & _ & _ & _ & _ & _ & _ & I8).
+    destruct (first_end ops) as [ts|]; [|exact I8].
+    unfold set_ended at 1. cbn [m_exported]. unfold mark_ended at 1. cbn [m_exported]. rewrite I8. reflexivity.
+  Qed.
 
   (** The snapshot as it was before fix 543ed08 hid the drop counters of empty queues. *)
   Definition hide_empty_dropped (x : export) : export :=
